@@ -14,6 +14,8 @@ from . import kernel
 from .kernel import HarnessError, Violation, case_digest, derive_seed
 
 VERIF = os.path.dirname(os.path.dirname(os.path.abspath(__file__)))
+# sensitivity tests against a scratch copy write their evidence / replays elsewhere
+OUT = os.environ.get("VERIF_SCRATCH_OUT") or VERIF
 PY = sys.executable
 WORKERS = int(os.environ.get("VERIF_WORKERS", "16"))
 
@@ -242,8 +244,8 @@ def check_property(prop, tier, base_seed):
         print(harness)
         status = 2
     elif failure is not None:
-        os.makedirs(os.path.join(VERIF, "replays"), exist_ok=True)
-        replay_path = os.path.join(VERIF, "replays", f"{pid}-{failure['batch_seed']}.json")
+        os.makedirs(os.path.join(OUT, "replays"), exist_ok=True)
+        replay_path = os.path.join(OUT, "replays", f"{pid}-{failure['batch_seed']}.json")
         with open(replay_path, "w") as handle:
             json.dump(
                 {
@@ -333,8 +335,8 @@ def write_evidence(prop, tier, base_seed, agg, digests, wall, batches_done, n_ba
         "wall_s": round(wall, 2),
         "violations": violations,
     }
-    os.makedirs(os.path.join(VERIF, "evidence"), exist_ok=True)
-    with open(os.path.join(VERIF, "evidence", f"{pid}.json"), "w") as handle:
+    os.makedirs(os.path.join(OUT, "evidence"), exist_ok=True)
+    with open(os.path.join(OUT, "evidence", f"{pid}.json"), "w") as handle:
         json.dump(evidence, handle, indent=1, sort_keys=True, default=str)
 
 
